@@ -55,7 +55,7 @@ theorem step_running (c : Cfg) (g : GoodCfg c) (r : Reg) (L : Ledger) (hwf : WF 
   | new p root marks =>
     cases hrun : r.running with
     | true =>
-      obtain ⟨r'', t, h1, _, h3⟩ := gcSet_wf c g r L hwf p root marks hrun hok.1 hok.2.1
+      obtain ⟨r'', t, h1, _, h3⟩ := gcSet_wf c g r L hwf p root marks hrun hok.1 hok.2.1 hok.2.2
       simp only [step, h1, Option.map, Option.some.injEq] at hstep
       rw [← hstep]; exact h3
     | false =>
